@@ -55,6 +55,7 @@ class Case:
         self.vdefs = []
         self.events = []
         self.uf, self.ug, self.search, self.dcs, self.dots, self.cb, self.upd = [], [], [], [], {}, [], []
+        self.dcs_objs = []   # (parameters, calls) of every DCSRCH object of the run, for the traced replay (pow table)
         self.scaler = None
         self.ft = self.gt = None
         self.sten, self.fdest = [], []
@@ -245,11 +246,14 @@ def record(kw, opts=None):
             super().__init__(phi, derphi, ftol, gtol, xtol, stpmin, stpmax)
             s._h = []
             s._mx = float(stpmax)
+            s._calls = []
+            C.dcs_objs.append(((float(ftol), float(gtol), float(xtol), float(stpmax)), s._calls))
 
         def _iterate(s, stp, fv, gv, task):
             out = super()._iterate(stp, fv, gv, task)
             s._h.append((float(stp), float(fv), float(gv)))
             t = bytes(out[3])
+            s._calls.append((float(stp), float(fv), float(gv), float(out[0]), t))
             tk = "TFG" if t[:2] == b"FG" else ("TConv" if t[:4] == b"CONV" else ("TWarn" if t[:4] == b"WARN" else "TErr"))
             hist = "[" + "; ".join("(%s, %s, %s)" % (cf(a), cf(b), cf(c)) for a, b, c in s._h) + "]"
             C.dcs.append(f"(({cf(s._mx)}, {hist}), ({cf(out[0])}, {tk}))")
@@ -320,10 +324,23 @@ def render(name, C, kw, outcome, ckpt=None):
         f"(Some (mk_upd {upds}))" if kw.get("update_fun_def") is not None else "None",
         ("(Some (fun _ _ _ _ => %s))" % (C.res(C.scaler, cf) if C.scaler else "miss")) if kw.get("gradient_scaler") is not None else "None",
         C.res(C.ft, cf) if C.ft else "miss", C.res(C.gt, cf) if C.gt else "miss") + fdpart + ")"
-    kern = f"(mkkern (mk_search {srch}) (mk_dcs [{'; '.join(C.dcs)}]) (mk_dot {dots}))"
+    # the line-search routine is the DCSRCH model; the values of the C library's pow(x, 2.0) inside dcstep come from a traced
+    # replay of every DCSRCH object of the run (harness/corr/dcsrch.py)
+    from harness.corr import dcsrch as DCS
+    pw, seen = [], set()
+    for par, calls in C.dcs_objs:
+        log, ok = DCS.traced_replay(par, calls)
+        if not ok:
+            pw.append("(nan, nan)")   # the traced replay disagrees with the native run: the conformance check will say so
+        for a, b_ in log:
+            k = (a.hex() if a == a else "nan")
+            if k not in seen:
+                seen.add(k)
+                pw.append(f"({cf(a)}, {cf(b_)})")
     # vector definitions are complete only now (rendering above may have added some)
     body = list(C.vdefs)
-    body.append(f"Definition out : Z := check_run {user} {kern} {cfg} {expected} [{'; '.join(C.events)}].")
+    body.append(f"Definition dcs_answers : list ((float * list (float * float * float)) * (float * task)) := [{'; '.join(C.dcs)}].")
+    body.append(f"Definition out : Z := check_run_dcs [{'; '.join(pw)}] dcs_answers {user} (mk_search {srch}) (mk_dot {dots}) {cfg} {expected} [{'; '.join(C.events)}].")
     L.extend(body)
     L.append(f"End {name}.")
     return "\n".join(L)
@@ -393,6 +410,8 @@ FIELDS = {1: "x", 2: "fun", 3: "jac", 4: "nfev", 5: "njev", 6: "nit", 7: "status
 def describe(code):
     if code is None:
         return "the case did not evaluate in Coq"
+    if code == 40:
+        return "the real DCSRCH (SciPy) answered differently from the DCSRCH model (Model/Dcsrch.v) on a line search of this run"
     if code >= 1000:
         return f"user-visible event #{code - 1000} differs (or the traces have different lengths)"
     return "result field differs: " + FIELDS.get(code, str(code))
@@ -575,7 +594,7 @@ def build_case(desc, name):
             kw["x0"] = kw["x0"] + np.asarray(desc["x0_off"], dtype=float)[: kw["x0"].size].sum() * np.eye(kw["x0"].size)[0]
     C, outcome = record(kw)
     txt = render(name, C, kw, outcome, ckpt=ck)
-    info = dict(events=len(C.events), outcome=outcome[0], message=(outcome[1].message if outcome[0] == "ok" else outcome[1]),
+    info = dict(events=len(C.events), line_searches=len(C.dcs_objs), dcsrch_calls=sum(len(c) for _, c in C.dcs_objs), outcome=outcome[0], message=(outcome[1].message if outcome[0] == "ok" else outcome[1]),
                 nit=(outcome[1].nit if outcome[0] == "ok" else None))
     return txt, info
 
@@ -608,5 +627,7 @@ def run(tier, focus=None):
                  options=dict(restart=sum(1 for d in kept if d.get("restart")), scaler=sum(1 for d in kept if d["opts"].get("scaler") is not None),
                               update_fun=sum(1 for d in kept if d["opts"].get("upd")), fault=sum(1 for d in kept if d["opts"].get("fault")),
                               callback=sum(1 for d in kept if d["opts"].get("cb") != "none")),
-                 raised=sum(1 for i_ in infos if i_["outcome"] != "ok"))
+                 raised=sum(1 for i_ in infos if i_["outcome"] != "ok"),
+                 line_search_routine="DCSRCH model (Model/Dcsrch.v) runs inside the driver model; pow(x,2.0) values from a traced replay",
+                 line_searches=sum(i_["line_searches"] for i_ in infos), dcsrch_calls=sum(i_["dcsrch_calls"] for i_ in infos))
     return failures, stats
